@@ -2,6 +2,9 @@ import Properties.C01Exec
 import PseudoProofs.NoCrashTAll
 import PseudoProofs.NoCrashTRepl
 import PseudoProofs.NoCrashTCounter
+import PseudoProofs.NoCrashRAll
+import PseudoProofs.NoCrashRRepl
+import PseudoProofs.NoCrashRCounter
 /-!
 # C01, evaluation stage — beyond the TYPE-free sublanguage
 
@@ -27,6 +30,36 @@ values and arrays of them, OUTPUT of enum values — the crash points `enumIndex
 * `C01_eval_no_crash_enum_ptr : ∀ fuel, NT.AllTri fuel` — one Hoare triple per function of the evaluator's mutual block;
   `C01_exec_no_crash_enum_ptr` for `execStmt`; `C01_no_crash_enum_ptr_file` / `C01_no_crash_enum_ptr_repl` for whole programs and REPL
   sessions, with the decidable side conditions `NT.OkSrc` (`NT.okSrcB`) / `NT.ReplOk`.
+
+## Third sublanguage: enum, pointer and RECORD types defined at top level  (`NR.okStmt` / `NR.okBlock`, `PseudoProofs/NoCrashR*.lean`)
+
+All three kinds of TYPE statements, executed in the global activation; the body of a record type consists of DECLAREs whose array
+bounds are integer literals (`NR.declBody`; member types: primitive, enum, pointer, other records — nested to any depth); the bodies of
+procedures and functions contain no TYPE statement. Everything else is in (also GETRECORD / PUTRECORD of records: `NR.load_good`):
+record variables and constants, arrays of records, record members that are arrays (of scalars or records), `r.f.g[i].h` references
+to any depth, whole-record assignment and comparison, records as BYVAL / BYREF parameters and return values, BYREF aliases of and
+pointers to members of records inside arrays inside records, …
+
+* values are nested now: `NR.kind v` (the type of a non-array value, resp. element type and dimensions of an array) is what a store
+  keeps (`NR.SameKind`, state-independent); `NR.Good σ v` — every node of `v` that a path reaches is `NR.Local σ`: an enum index below
+  the size of its type, a pointer with a defined type and a fine target, a record whose member list has, in order, the names and
+  kinds that the body of its type declares (`NR.memSig`), an array with as many cells as its dimensions say, all of the element kind;
+* **the type name determines the shape** (`NR.paths_agree`): two good values of the same kind have the same readable paths with the
+  same kinds; hence a store of a same-kind good value at a readable path keeps every readable location readable (`NR.setPath_good`,
+  `NR.run_writeLoc`) — this is exactly what failed in the counterexamples of `C01Exec.lean` before the interpreter was repaired;
+* a freshly declared record matches its type: the functions on the declaration path (`runBlock` / `execStmt` on DECLAREs,
+  `declareVars`, `declareArrs`, `defaultVal`, `defaultCells`) are specified with *frames* (`NR.Frame`: exactly which variables / arrays they
+  add to the top activation, nothing else changes its signature), so that the record built by `defaultVal` from the record context
+  has the member signature of its type;
+* `C01_eval_no_crash_records : ∀ fuel, NR.AllTri fuel`, `C01_exec_no_crash_records`, `C01_no_crash_records_file`,
+  `C01_no_crash_records_repl` (side conditions `NR.OkSrc` / `NR.okSrcB`, `NR.ReplOk`, decidable).
+
+## Not covered (and why)
+
+* TYPE statements inside procedures / functions: a BYREF parameter's alias slot takes the type of the re-resolved argument reference
+  (`bindParams`) while the type check is made on the value evaluated earlier; with procedure-local types the soundness of that needs
+  "name resolution is stable while the arguments are evaluated", an extra relation through the eight expression-like functions.
+* record bodies with non-literal array bounds: there the statement is FALSE for the model (`C01_counterexample_model_recordCopy`).
 -/
 namespace Pseudo
 
@@ -56,7 +89,43 @@ theorem C01_no_crash_enum_ptr_repl (cfg : Cfg) (fs : List (Str × FsNode)) (stdi
     (h : NT.ReplOk cfg (stdin.length + 2) true (NT.replInit cfg fs stdin)) : (repl cfg fs stdin).crash = none :=
   NT.repl_ok NT.allTri cfg fs stdin h
 
-/-! ### non-vacuity (kernel evaluations in `PseudoProofs/NoCrashTCounter.lean`) -/
+/-! ## third sublanguage -/
+
+/-- **Enum, pointer and record types at top level: no function of the evaluator reaches a crash point** (all 25 functions, every
+    fuel; the declaration-path functions with their frames). -/
+theorem C01_eval_no_crash_records : ∀ fuel, NR.AllTri fuel := NR.allTri
+
+theorem C01_exec_no_crash_records (fuel : Nat) (top : Bool) (s : Stmt) (hs : NR.okStmt top s = true) (σ : St) (hW : NR.WF σ)
+    (hT : NR.TopCond top σ) :
+    NR.WF ((execStmt fuel s).run.run σ).2 ∧ ∀ e, ((execStmt fuel s).run.run σ).1 = .error e → ∀ p, e ≠ .crash p := by
+  obtain ⟨h1, _, h3⟩ := (NR.allTri fuel).execStmt top s hs σ hW hT
+  refine ⟨h1, fun e he => ?_⟩
+  rw [he] at h3
+  exact h3.1
+
+theorem C01_wf_init_records (fs : List (Str × FsNode)) (stdin : Str) (p r : Bool) : NR.WF (St.init fs stdin p r) :=
+  NR.WF.init fs stdin p r
+
+/-- **file mode**: a program whose parse is in the third sublanguage never ends in a crash point -/
+theorem C01_no_crash_records_file (cfg : Cfg) (content : Str) (fs : List (Str × FsNode)) (stdin : Str)
+    (h : NR.OkSrc cfg (content ++ ['\n'])) : (runFile cfg content fs stdin).crash = none :=
+  NR.runFile_ok NR.allTri cfg content h fs stdin
+
+/-- **REPL**: a session all of whose entries and RUNFILE'd files are in the third sublanguage never ends in a crash point -/
+theorem C01_no_crash_records_repl (cfg : Cfg) (fs : List (Str × FsNode)) (stdin : Str)
+    (h : NR.ReplOk cfg (stdin.length + 2) true (NR.replInit cfg fs stdin)) : (repl cfg fs stdin).crash = none :=
+  NR.repl_ok NR.allTri cfg fs stdin h
+
+/-! ### non-vacuity (kernel evaluations in `PseudoProofs/NoCrashTCounter.lean`, `NoCrashRCounter.lean`) -/
+
+/-- `C01.progRecords` (nested records, an array member of records, BYREF of a record and a field, a pointer to a field inside an array
+    member, RETURN of a record, record copies) is in the third sublanguage; it prints `6Green6` -/
+example (fs : List (Str × FsNode)) (stdin : Str) : (runFile {} C01.progRecords.toList fs stdin).crash = none :=
+  C01_no_crash_records_file {} _ fs stdin NR.progRecords_ok
+example : (runFile {} C01.progRecords.toList [] []).out = "6Green6\n".toList := NR.progRecords_runs
+/-- the former counterexample programs of `C01Exec.lean` (procedure-local types) are outside all three sublanguages -/
+example : ¬ NR.OkSrc {} (C01.progEnum.toList ++ ['\n']) := by decide +kernel
+
 
 /-- `C01.progEnumPtr` (enum arithmetic through BYREF, pointers, a dangling pointer returned from a function) is in the sublanguage,
     so it never crashes, whatever the file system and the input; it runs: prints `Spring`, `42`, then the diagnostic for `p^` -/
